@@ -686,4 +686,3 @@ func joinLines(l []string) string {
 	}
 	return b.String()
 }
-
